@@ -19,6 +19,10 @@ CONSTANTS L0, L1,     \* lengths of the input and of the decode target
           Types1, Kinds1, \* ... and on the decode target
           Slack           \* 0 for in-bounds worlds
 
+\* named depth-limit sets for configuration files (cfg syntax has no negative numbers)
+K_m1_2_4 == {-1, 2, 4}
+K_m5_0_1 == {-5, 0, 1}
+
 Letters(base, n) == Tup([i \in 1..n |-> base + i - 1])
 Input  == Letters(97, L0)                       \* "abc"
 Target == Letters(100 + L0, L1)                 \* distinct from the input's letters
